@@ -16,14 +16,12 @@ import numpy as np
 from common import qlit, zlit, dyadic, coqc_many, parse_evals, parse_zlist, REPO
 import c02_oracle as orc
 
-THEOREMS_ALL = ["C02_gauss_loop_is_bin_average", "C02_lorentz_loop_is_bin_integral", "C02_components_add_up",
+THEOREMS = ["C02_gauss_loop_is_bin_average", "C02_lorentz_loop_is_bin_integral", "C02_components_add_up",
             "C02_gauss_integral_telescopes", "C02_gauss_support", "C02_gauss_window_fraction",
             "C02_gauss_bounds", "C02_gauss_total_partial", "C02_line_linear",
             "C02_zeeman_weights", "C02_pi_plus_sigma_is_unpolarised", "C02_multiplet_shares",
             "C02_zeeman_structure_normalised", "C02_mse_weights", "C02_stark_weights",
             "C02_stark_integral_partial", "C02_zero_width_adds_nothing"]
-
-THEOREMS = ["C02_gauss_loop_is_bin_average"]
 
 CLASSES = ["GaussianLine", "MultipletLineShape", "ZeemanTriplet", "ParametrisedZeemanTriplet", "ZeemanMultiplet",
            "StarkBroadenedLine", "BeamEmissionMultiplet"]
@@ -298,17 +296,33 @@ def gen_physics(rng, cls, exact, impl):
     if cls == "StarkBroadenedLine":
         c["stark"] = [rng.choice([3.71e-18, 8.425e-18, 1.31e-15, 3.954e-16]), rng.choice([0.7665, 0.7803, 0.6796, 0.7149]),
                       rng.choice([0.064, 0.050, 0.030, 0.028])]
+        # pure Doppler (no electron broadening), pure Stark (ts <= 0), neither, or both ("mixed": the pseudo-Voigt
+        # weights; the width polynomial of degree 6 makes the exact fractions ~2000 bits long, ~1 s per erf argument in
+        # Coq, so mixed cases get few bins)
         k = rng.random()
-        if k < 0.15:
-            c["ne"] = rng.choice([0.0, -1.0])        # no electron broadening
-        elif k < 0.25:
+        c["stark_kind"] = "mixed"
+        if k < 0.12:
+            c["ne"] = rng.choice([0.0, -1.0])
+            c["stark_kind"] = "doppler_only"
+        elif k < 0.2:
             c["te"] = rng.choice([0.0, -2.0])
-        elif k < 0.45:
+            c["stark_kind"] = "doppler_only"
+        elif k < 0.5:
+            c["ts"] = rng.choice([0.0, -1.0, -0.5])
+            c["stark_kind"] = "stark_only"
+        elif k < 0.62:
             c["ne"] = 10 ** rng.uniform(14, 17)      # Lorentz/total < 0.01 or small
-        elif k < 0.6:
+        elif k < 0.74:
             c["ne"] = 10 ** rng.uniform(21, 23)      # Lorentz dominated
-        if rng.random() < 0.3 and not zw:
-            c["ts"] = math.exp(rng.uniform(-3, 1))
+        if zw and c["stark_kind"] == "doppler_only":
+            c["stark_kind"] = "none"
+        if c["stark_kind"] == "mixed":
+            if c["ts"] <= 0:
+                c["ts"] = math.exp(rng.uniform(-3, 3))
+            if rng.random() < 0.5:
+                c["b"], c["b_kind"] = [0.0, 0.0, 0.0], "zero"
+            if not exact:
+                return gen_physics(rng, cls, True, impl)     # full-precision inputs on top of the degree-6 polynomial: minutes per case
     if cls == "BeamEmissionMultiplet":
         c["benergy"] = 2.0 ** rng.randint(13, 17) if exact else rng.uniform(1e4, 1.2e5)
         c["btemp"] = max(c["ts"], 0.0)        # the Beam.temperature setter rejects negative values
@@ -341,8 +355,10 @@ def gen_window(rng, c, comps, exact, quick):
     kind = rng.choice(WINDOW_KINDS)
     maxbins = 40 if quick else 160
     ncomp = max(1, len(comps))
-    mixed_stark = any(k_ == "L" for k_, _, _, wd in comps if wd > 0) and any(k_ == "G" for k_, _, _, wd in comps if wd > 0)
-    if not exact or mixed_stark:
+    mixed_stark = c.get("stark_kind") == "mixed"
+    if mixed_stark:
+        bins = rng.choice([1, 2, 3]) if len(comps) <= 2 else rng.choice([1, 2])
+    elif not exact:
         bins = rng.choice([1, 2, 3, 5, 6, 8])              # full-precision inputs: long fractions in Coq
     elif ncomp >= 6:
         bins = rng.choice([1, 2, 3, 5, 8, 13])
@@ -381,12 +397,13 @@ def gen_window(rng, c, comps, exact, quick):
     lw = [float(wd) for k_, _, _, wd in comps if k_ == "L" and wd > 0]
     if lw:
         # the code integrates the Stark profile over each bin with a fixed-tolerance Gauss-Legendre rule that is only
-        # accurate while a bin is not much wider than the line (measured: 4e-5 at 2 FWHM, 1e-3 at 10, 30% at 50; see the
-        # coarse-grid probe below) -- the correspondence stream stays at <= 2 FWHM per bin
-        if (b - a) / bins > 2 * min(lw):
-            bins = min(int(math.ceil((b - a) / (2 * min(lw)))), 12 if mixed_stark else maxbins)
-            if (b - a) / bins > 2 * min(lw):
-                b = a + bins * 2 * min(lw)
+        # accurate while a bin is not wider than the line (measured worst per-bin relative error against the closed form:
+        # 3.8e-5 for bins <= 1 FWHM, 4e-4 at 2 FWHM; integral off by 1e-3 at 10 FWHM, 30% at 50 FWHM, see the coarse-grid
+        # probe below) -- the correspondence stream stays at <= 1 FWHM per bin
+        if (b - a) / bins > min(lw):
+            bins = min(int(math.ceil((b - a) / min(lw))), (3 if len(comps) <= 2 else 2) if mixed_stark else maxbins)
+            if (b - a) / bins > min(lw):
+                b = a + bins * min(lw)
     if exact:
         # dyadic edges and a dyadic bin width: every bin edge is then exact in double arithmetic
         e = math.floor(math.log2(max((b - a) / bins, 1e-9)))
@@ -480,14 +497,14 @@ def property_failures(impl, W, c, m, out=None):
     exp, lor = expected_bins(comps, c, delta)
     Rabs = max(sum(abs(float(r)) for _, r, _, _ in comps), abs(c["R"]))
     wmin = min([float(wd) for _, _, _, wd in comps if wd > 0] or [1.0])
-    tol_bin = (1e-9 + 4e-15 * W_ / wmin) * Rabs / delta + 2.5e-4 * np.abs(lor) + 1e-14 * np.abs(np.array(smp0))
+    tol_bin = (1e-9 + 4e-15 * W_ / wmin) * Rabs / delta + 1.5e-4 * np.abs(lor) + 1e-14 * np.abs(np.array(smp0))
     bad = np.nonzero(~(np.abs(added - exp) <= tol_bin))[0]
     if len(bad):
         i = int(bad[0])
         claim("each bin receives the bin-average of the normalised profile times the component radiances",
               bin=i, got=float(added[i]), want=float(exp[i]), tol=float(tol_bin[i]), nbad=len(bad))
     tot_got, tot_exp = float(added.sum() * delta), float(exp.sum() * delta)
-    tol_tot = (1e-9 + 4e-15 * W_ / wmin * c["bins"]) * Rabs + 2.5e-4 * float(lor.sum() * delta) + 1e-13 * float(np.abs(smp0).sum()) * delta
+    tol_tot = (1e-9 + 4e-15 * W_ / wmin * c["bins"]) * Rabs + 1.5e-4 * float(lor.sum() * delta) + 1e-13 * float(np.abs(smp0).sum()) * delta
     if not abs(tot_got - tot_exp) <= tol_tot:
         claim("wavelength integral equals radiance times the fraction of the profile inside the window",
               got=tot_got, want=tot_exp, tol=tol_tot)
@@ -584,7 +601,7 @@ def run(ctx):
         "int casts of floor/ceil results fit a C int; spectrum.delta_wavelength > 0",
     ]
     ctx.rebuild()
-    ctx.proofs("Properties.C02", THEOREMS, extra_modules=("Model.C02_LineShape", "Model.C02_Check"))
+    ctx.proofs("Properties.C02", THEOREMS, extra_modules=("Model.C02_LineShape", "Proofs.C02_Gauss", "Proofs.C02_Norm", "Proofs.C02_Weights", "Model.C02_Check"))
 
     import cherab
     assert list(cherab.__path__) == [REPO + "/cherab"], cherab.__path__
@@ -613,6 +630,7 @@ def run(ctx):
         for k in range(n_class):
             exact = (k % 3 != 0)
             c = gen_physics(rng, cls, exact, impl)
+            exact = c["exact"]
             m = atomic_weight(impl, c)
             T = orc.Tabs()
             W = orc.Walk(T, K, fr(s2f))
@@ -786,11 +804,11 @@ def run(ctx):
                 "non-trivial = the call changed at least one bin (value cases) or wrote to at least one bin (support probes)",
         "distribution": dict(dist, value_cases=len(cases), support_probes=len(probes), support_ambiguous_skipped=ambiguous,
                              search_cases=n_search, oblique_angle_cases=n_angle),
-        "tolerance": {"per_bin_in_Coq": "sum over components of |R_c|/delta * (2^-45 + 2^-49 * W/width_c), plus 2^-12 of the bin's own "
+        "tolerance": {"per_bin_in_Coq": "sum over components of |R|/delta * (2^-47 + 2^-50 * W/width_c) (R the supplied radiance; twice the worst-case rounding bound), plus 2^-13 of the bin's own "
                                         "Stark part (the code's quadrature stops at 1e-5 relative between successive orders; "
-                                        "measured true error up to 4e-5 for bins <= 2 FWHM)",
+                                        "measured true per-bin error up to 3.8e-5 for bins <= 1 FWHM, which the generator enforces)",
                       "support": "exact (cases whose floor/ceil argument is within 2^-30 of an integer are counted as ambiguous and skipped)",
-                      "search": "(1e-9 + 4e-15 W/width) R/delta per bin, 2.5e-4 of the Stark part; pi+sigma vs unpolarised: 8 ulp",
+                      "search": "(1e-9 + 4e-15 W/width) R/delta per bin, 1.5e-4 of the Stark part; pi+sigma vs unpolarised: 8 ulp",
                       "max_tolerance_usage_this_run": max_usage},
         "partial": ["Gaussian truncation constant 1 - erf(10/sqrt 2) = 1.5e-23 is an oracle fact (C02_gauss_total_partial)",
                     "normalisation of the Stark profile on +-50 FWHM (hypergeometric constant) is an oracle fact "
